@@ -48,6 +48,7 @@ func genGwHist(c *rig.Ctx, i int) Case {
 				sy.Leaders = append(sy.Leaders, EP{s, rig.Hex(rig.Pick(c.Rng, gwLeaders))})
 			}
 		}
+		scriptInfo(c, &sy)
 		cs.Rounds = append(cs.Rounds, sy)
 	}
 	for len(cs.Names) < 8 {
@@ -186,8 +187,7 @@ func runGwHist(c *rig.Ctx, cs Case, m mode) int {
 		for _, e := range sy.Leaders {
 			elector.VerifC13SetLeader(srv.le, int(e.S), rig.UnHex(e.L))
 		}
-		info, _ := srv.rl.ServerInfo()
-		b, _ := json.Marshal(info)
+		b, _ := publishedInfo(srv, sy)
 		worldMu.Lock()
 		worldInfo = b
 		worldMu.Unlock()
